@@ -76,3 +76,43 @@ HX void hx_fs_str(uint64_t op, uint64_t domain) {
    }
    if (op >= 10) same(f, ref, "C10 observers leave the string unchanged");
 }
+
+// long std::string arguments (lengths around 256 / 65536, where the internal 8/16-bit length type would wrap):
+// the first CAP+1 characters are symbolic, the rest is filler.  Driver passes the concrete source length.
+HX void hx_fs_long(uint64_t op, uint64_t srclen) {
+   FS f; std::string ref; mk(f, ref, "fs");
+   std::string s(srclen, 'x');
+   char b[CAP + 1]; vs_sym(b, CAP + 1, "str");
+   for (unsigned i = 0; i <= CAP; ++i) { vs_assume(b[i] != 0); s[i] = b[i]; }
+   switch (op) {
+   case 0: { FS g(s); same(g, s, "C11 FixedString(std::string) (long source)"); break; }
+   case 1: f.assign(s); same(f, s, "C11 assign(std::string) (long source)"); break;
+   case 2: f = s; same(f, s, "C11 operator=(std::string) (long source)"); break;
+   case 3: f.append(s); same(f, ref + s, "C11 append(std::string) (long source)"); break;
+   case 4: f += s; same(f, ref + s, "C11 operator+=(std::string) (long source)"); break;
+   case 5: f.insert(0, s); same(f, s + ref, "C11 insert(0,std::string) (long source)"); break;
+   case 6: f.replace(0, 1, s); same(f, std::string(ref).replace(0, 1, s), "C11 replace(0,1,std::string) (long source)"); break;
+   case 7: { int r = f.compare(s); vs_assert(sgn(r) == sgn(ref.compare(s)), "C11 compare(std::string) (long source)"); break; }
+   case 8: { vs_assert(!f.starts_with(s) && !f.ends_with(s) && !f.contains(s) && f.find(s) == std::string::npos, "C11 a longer string is never found (long source)"); break; }
+   case 9: { size_t n2 = vs_u64("cnt2"); f.append(s, srclen - 2, n2); same(f, ref + s.substr(srclen - 2, n2), "C11 append(std::string,pos,count) (long source)"); break; }
+   }
+   if (op >= 7 && op <= 8) same(f, ref, "C10 observers leave the string unchanged");
+}
+
+// sprintf(): formatted content (truncated to the capacity), and the failing conversion (vsnprintf() < 0)
+HX void hx_fs_sprintf(uint64_t mode) {
+   FS f; std::string ref; mk(f, ref, "fs");
+   std::string a = mk_str(3, "str"), b = mk_str(2, "str2");
+   switch (mode) {
+   case 0: f.sprintf("%s", a.c_str()); same(f, a, "C11 sprintf(%s)"); break;
+   case 1: f.sprintf("%s-%s", a.c_str(), b.c_str()); same(f, a + "-" + b, "C11 sprintf(%s-%s)"); break;
+   case 2: f.sprintf("%d:%s", 42, a.c_str()); same(f, "42:" + a, "C11 sprintf(%d:%s)"); break;
+   case 3: f.sprintf("x"); same(f, "x", "C11 sprintf(constant)"); break;
+   case 4: { static const wchar_t wide[] = { 0xe9, 0x4e2d, 0 };          // not convertible in the "C" locale: vsnprintf() fails
+      f.sprintf("%ls", wide);
+      vs_assert(f.length() <= CAP, "C10 length <= capacity");
+      vs_assert(f.c_str()[f.length()] == 0, "C10 NUL at length");
+      vs_assert(std::strlen(f.c_str()) == f.length(), "C10 length equals the C string length after a failed sprintf()");
+      break; }
+   }
+}
